@@ -15,6 +15,7 @@ import ModVerif.Proofs.EditRefineWork
 import ModVerif.Proofs.EditRefineValid
 import ModVerif.Proofs.EditMoreStartW
 import ModVerif.Proofs.EditMoreKeepF
+import ModVerif.Proofs.EditWorkKeepB
 namespace ModVerif.Props.C08
 open ModVerif ModVerif.EditSpec ModVerif.Modfile
 
@@ -320,7 +321,7 @@ theorem op_untouched_line_survives (e e' : Edit.EFile) (op : Edit.Op) (hv : Edit
     `f`: `Props.C15.parseStrict_inv` — a directive line that no operation of the session names and that no SortBlocks
     removes as a duplicate (`Edit.Spared`, a condition on the line's tokens and id along the run) is still in the tree after
     the final Cleanup: same line id, same full tokens; its `Before` and `Suffix` comments are sublists of the final ones
-    (Cleanup may add the comments of a collapsed one-line block).  Not covered: go.work sessions (same structure). -/
+    (Cleanup may add the comments of a collapsed one-line block).  go.work sessions: `untouched_lines_survive_work` below. -/
 theorem untouched_lines_survive (e e' : Edit.EFile) (ops : List Edit.Op) (res : List Bool) (hi : Edit.Inv e)
     (hv : Edit.RunValid e ops) (h : Edit.runOps Edit.applyMod e ops [] 0 = .done e' res)
     (x : Edit.XLine) (hx : x ∈ Edit.viewX e.f.syn.stmts) (hsp : Edit.Spared x.toks x.id e ops) :
@@ -343,6 +344,55 @@ example :
          x.suffix.length == 1 && Edit.sparedB x.toks x.id e ops &&
          (match Edit.runOps Edit.applyMod e ops [] 0 with
           | .done e' _ => (Edit.viewX (Edit.cleanup e').f.syn.stmts).any (fun y => y.id == x.id && y.toks == x.toks &&
+              y.before == x.before && y.suffix == x.suffix)
+          | _ => false))
+     | .error _ => false) = true := by decide +kernel
+
+/-! ### Untouched lines survive, go.work (Proofs/EditWorkKeep{A,B}.lean)
+
+    `Edit.TargetsW op toks`: the tokens are those of the directive the go.work operation names — the `go` / `toolchain`
+    line for AddGoStmt / DropGoStmt / AddToolchainStmt / DropToolchainStmt, `godebug <key>=…`, `use <dir>` for AddUse /
+    DropUse of that directory, every `use` line for SetUse (which may remove any of them), `replace <old path> …` for
+    AddReplace / DropReplace.  `Edit.SortsW op`: the operation ends with WorkFile.SortBlocks (SortBlocks itself, SetUse),
+    whose de-duplication removes the lines of earlier replacements of the same module (`Edit.killEarlier`).
+    `Edit.ValidArgsWAll e op`: non-empty keys; SetUse with pairwise distinct non-empty directories on live `use` entries. -/
+
+/-- **one go.work operation leaves every line it does not name as it is** (go.work counterpart of
+    `op_untouched_line_survives`; `workAddGoStmt` / `workAddToolchainStmt` insert their line by index, SetUse included) -/
+theorem op_untouched_line_survives_work (e e' : Edit.EWork) (op : Edit.Op) (hv : Edit.ValidArgsWAll e op) (hi : Edit.InvW e)
+    (h : Edit.applyWork e op = some (.ok e')) (x : Edit.XLine) (hx : x ∈ Edit.viewX e.f.syn.stmts)
+    (hnt : ¬Edit.TargetsW op x.toks) (hk : Edit.SortsW op = true → x.id ∉ Edit.killEarlier e.f.replace) :
+    ∃ x' ∈ Edit.viewX e'.f.syn.stmts, x'.id = x.id ∧ x'.toks = x.toks ∧ x.before.Sublist x'.before ∧
+      x.suffix.Sublist x'.suffix :=
+  Edit.applyWork_untouched e e' op hv hi h x hx hnt hk
+
+/-- **untouched_lines_survive, go.work.**  In a session of go.work operations (SetUse included) with valid arguments
+    (`Edit.RunValidW`) from a state satisfying the go.work tree invariant — e.g. `Edit.loadWork f` for any file accepted by
+    `parseWork` with non-empty keys: `Props.C15.parseWork_inv` — a directive line that no operation of the session names and
+    that no SortBlocks removes as a duplicate replacement (`Edit.SparedW`) is still in the tree after the final Cleanup: same
+    line id, same full tokens; its `Before` and `Suffix` comments are sublists of the final ones. -/
+theorem untouched_lines_survive_work (e e' : Edit.EWork) (ops : List Edit.Op) (res : List Bool) (hi : Edit.InvW e)
+    (hv : Edit.RunValidW e ops) (h : Edit.runOps Edit.applyWork e ops [] 0 = .done e' res)
+    (x : Edit.XLine) (hx : x ∈ Edit.viewX e.f.syn.stmts) (hsp : Edit.SparedW x.toks x.id e ops) :
+    ∃ x' ∈ Edit.viewX (Edit.workCleanup e').f.syn.stmts, x'.id = x.id ∧ x'.toks = x.toks ∧ x.before.Sublist x'.before ∧
+      x.suffix.Sublist x'.suffix :=
+  Edit.untouched_lines_survive_work e e' ops res hi hv h x hx hsp
+
+/-- non-vacuity of `untouched_lines_survive_work` / `op_untouched_line_survives_work`: in a parsed go.work with comments, the
+    `replace` line (with its `Before` and `Suffix` comments) is spared by a session that edits uses (AddUse, SetUse after a
+    Cleanup), the go and toolchain lines and a godebug, and sorts (`Edit.invWB`, `Edit.runValidWB`, `Edit.sparedWB` are sound
+    Boolean tests of `InvW`, `RunValidW`, `SparedW`); it is found unchanged in the final tree -/
+example :
+    (match parseWork (B "go.work") (B "go 1.21\n\nuse (\n\t./a\n\t./b\n)\n\n// why\nreplace example.com/x => ../x // note\n\ngodebug k=v\n") none with
+     | .ok f =>
+       let e := Edit.loadWork f
+       let ops : List Edit.Op := [.addUse (B "./c") [], .addGo (B "1.22"), .addToolchain (B "go1.22.0"), .dropGodebug (B "k"), .cleanup,
+         .setUse [(B "./b", []), (B "./d", [])] true, .sortBlocks]
+       Edit.invWB e && Edit.runValidWB e ops &&
+       (Edit.viewX e.f.syn.stmts).any (fun x => x.toks == [B "replace", B "example.com/x", B "=>", B "../x"] && x.before.length == 1 &&
+         x.suffix.length == 1 && Edit.sparedWB x.toks x.id e ops &&
+         (match Edit.runOps Edit.applyWork e ops [] 0 with
+          | .done e' res => res.all id && (Edit.viewX (Edit.workCleanup e').f.syn.stmts).any (fun y => y.id == x.id && y.toks == x.toks &&
               y.before == x.before && y.suffix == x.suffix)
           | _ => false))
      | .error _ => false) = true := by decide +kernel
